@@ -203,6 +203,22 @@ static void probe(void *vs)
           }
           SPIF_ITERATOR_DEL(it);
       } }
+    /* two iterators alive at once (an earlier iterator has been deleted by now): each walks the whole list on its own */
+    { spif_iterator_t i1 = SPIF_LIST_ITERATOR(l), i2 = NULL;
+      if (i1) {
+          int k1 = 0, k2 = 0, bad = 0;
+          if (n && SPIF_ITERATOR_HAS_NEXT(i1)) { if (SPIF_ITERATOR_NEXT(i1) != s->e[0]) bad = 1; k1 = 1; }
+          i2 = SPIF_LIST_ITERATOR(l);
+          if (!i2) FAIL(site("iterator"), "model:return", shape, "a second iterator() returned NULL");
+          else if (i2 == i1) FAIL(site("iterator"), "model:shared-iterator", shape, "two live iterators are the same object");
+          else {
+              while (k2 <= n + 1 && SPIF_ITERATOR_HAS_NEXT(i2)) { spif_obj_t g = SPIF_ITERATOR_NEXT(i2); if (k2 < n && g != s->e[k2]) bad = 1; k2++; }
+              while (k1 <= n + 1 && SPIF_ITERATOR_HAS_NEXT(i1)) { spif_obj_t g = SPIF_ITERATOR_NEXT(i1); if (k1 < n && g != s->e[k1]) bad = 1; k1++; }
+              if (k1 != n || k2 != n || bad) FAIL(site("iterator"), "model:interleaved-iterators", shape, "two interleaved iterators yielded %d and %d elements of %d%s", k1, k2, n, bad ? " (wrong elements)" : "");
+          }
+          if (i2 && i2 != i1) SPIF_ITERATOR_DEL(i2);
+          SPIF_ITERATOR_DEL(i1);
+      } }
     { spif_list_t d = (spif_list_t) SPIF_LIST_DUP(l);
       if (!d) FAIL(site("dup"), "model:return", shape, "dup returned NULL");
       else if (d == l) FAIL(site("dup"), "model:same-object", shape, "dup returned self");
@@ -237,7 +253,7 @@ int main(int argc, char **argv)
     if (S > SMAX - 1) S = SMAX - 1;
     build_ops();
     mc_info("alphabet", "elements {a,b,c} (fresh str object per insertion) + NULL placeholders; ops append, prepend, insert_at(x,i) i in window(n), remove(x in a..d), remove_at(i) i in window(n), reverse; size cap %d; %d opcodes; "
-            "probe: count, get over window(n), index/find/contains(a..d), to_array, iterator to exhaustion + 2, dup read-back, show; white-box link invariants", S, NOPS);
+            "probe: count, get over window(n), index/find/contains(a..d), to_array, iterator to exhaustion + 2, two interleaved iterators, dup read-back, show; white-box link invariants", S, NOPS);
     const char *only = mc_arg("class", NULL);
     for (CLS = 0; CLS < 3; CLS++) {
         if (only && strcmp(only, CN[CLS])) continue;
